@@ -236,6 +236,7 @@ func load(c *config) (*ssa.Program, *ssa.Function, error) {
 type job struct {
 	Prefix      string            `json:"prefix"`
 	Model       map[string]uint64 `json:"model"`
+	IntModel    map[string]string `json:"int_model"`
 	WantWitness bool              `json:"want_witness"`
 }
 
@@ -251,7 +252,7 @@ func newEngine(c *config) (*interp.Engine, *ssa.Function, error) {
 	if err != nil {
 		return nil, nil, err
 	}
-	s, err := smt.NewSolver(solverCmd(c), c.TimeoutMs)
+	s, err := smt.NewSolverLogic(solverCmd(c), c.TimeoutMs, os.Getenv("GOSYM_LOGIC"))
 	if err != nil {
 		return nil, nil, err
 	}
@@ -299,7 +300,7 @@ func worker(c *config) {
 			w.Flush()
 			os.Exit(2)
 		}
-		res := e.RunPath(fn, j.Prefix, j.Model, pathOpts(c, j.WantWitness))
+		res := e.RunPath(fn, j.Prefix, j.Model, j.IntModel, pathOpts(c, j.WantWitness))
 		enc.Encode(res)
 		w.Flush()
 	}
@@ -312,7 +313,7 @@ func one(c *config) {
 		fmt.Fprintln(os.Stderr, err)
 		os.Exit(2)
 	}
-	res := e.RunPath(fn, c.Prefix, nil, pathOpts(c, true))
+	res := e.RunPath(fn, c.Prefix, nil, nil, pathOpts(c, true))
 	b, _ := json.MarshalIndent(res, "", " ")
 	fmt.Println(string(b))
 }
@@ -358,6 +359,9 @@ type Result struct {
 	QueryScripts  int                `json:"query_scripts"`
 	Workers       int                `json:"workers"`
 	PathWallS     float64            `json:"path_wall_s"`
+	SlowestMs     float64            `json:"slowest_path_solver_ms"`
+	SlowestPrefix string             `json:"slowest_path_prefix"`
+	SlowestQueries int               `json:"slowest_path_queries"`
 }
 
 type ConfirmedViol struct {
@@ -576,6 +580,9 @@ func run(c *config) int {
 		res.NUnknown += pr.NUnknown
 		res.SolverS += pr.SolverMs / 1000
 		res.PathWallS += pr.WallMs / 1000
+		if pr.SolverMs > res.SlowestMs {
+			res.SlowestMs, res.SlowestPrefix, res.SlowestQueries = pr.SolverMs, pr.Decisions, pr.NSat+pr.NUnsat
+		}
 		if n := len(pr.Decisions); n > res.MaxDecisions {
 			res.MaxDecisions = n
 		}
@@ -602,7 +609,7 @@ func run(c *config) int {
 			res.Witnesses = append(res.Witnesses, Witness{pr.Witness, pr.Observations, pr.Decisions})
 		}
 		for _, p := range pr.Pending {
-			stack = append(stack, job{Prefix: p.Prefix, Model: p.Model})
+			stack = append(stack, job{Prefix: p.Prefix, Model: p.Model, IntModel: p.IntModel})
 		}
 		if res.PathsTotal >= c.MaxPaths && overLimit == "" {
 			overLimit = fmt.Sprintf("path cap %d reached with %d prefixes pending", c.MaxPaths, len(stack))
